@@ -33,21 +33,21 @@ def jobs(pid, tier):
     q = tier == 'quick'
     if pid == 'C07':
         if q:
-            return [vrt('C07', [r'mx2_.*_r1', r'mxpool_.*', r'mxown.*'], bound=2, workers=2, ignore=[r'^mutex/fifo']),
+            return [vrt('C07', [r'mx2_.*_r1', r'mxpool_.*', r'mxown.*', r'mxcb.*'], bound=2, workers=2, ignore=[r'^mutex/fifo']),
                     vrt('C07', [r'mx2_(co-co|co-bl)_(dis-dis|dtor-awt|awt-awt|dis-move)_r2'], bound=2, workers=4, ignore=[r'^mutex/fifo']),
                     vrt('C07', [r'mx3_f[012]_r[023]'], bound=2, workers=8, ignore=[r'^mutex/fifo'])]
         return [vrt('C07', [r'mx2_.*_r1'], unbounded=True, workers=4, ignore=[r'^mutex/fifo']),
-                vrt('C07', [r'mxpool_.*', r'mxown.*'], bound=3, workers=4, ignore=[r'^mutex/fifo']),
+                vrt('C07', [r'mxpool_.*', r'mxown.*', r'mxcb.*'], bound=3, workers=4, ignore=[r'^mutex/fifo']),
                 vrt('C07', [r'mx2_.*_r2'], bound=3, workers=4, ignore=[r'^mutex/fifo']),
                 vrt('C07', [r'mx3_.*'], bound=3, workers=16, ignore=[r'^mutex/fifo']),
                 vrt('C07', [r'mx4_.*'], bound=2, workers=16, ignore=[r'^mutex/fifo']),
                 vrt('C07', [r'mx2_.*_r1'], bound=2, workers=4, ignore=[r'^mutex/fifo'], spurious=True)]
     if pid == 'C08':
         if q:
-            return [vrt('C07', [r'mx2_.*_r1', r'mxpool_.*', r'mxown.*'], bound=2, workers=2),
+            return [vrt('C07', [r'mx2_.*_r1', r'mxpool_.*', r'mxown.*', r'mxcb.*'], bound=2, workers=2),
                     vrt('C07', [r'mx3_f[012]_r[0123]'], bound=2, workers=8)]
         return [vrt('C07', [r'mx2_.*_r1'], unbounded=True, workers=4),
-                vrt('C07', [r'mxpool_.*', r'mxown.*'], bound=3, workers=4),
+                vrt('C07', [r'mxpool_.*', r'mxown.*', r'mxcb.*'], bound=3, workers=4),
                 vrt('C07', [r'mx3_.*'], bound=3, workers=16),
                 vrt('C07', [r'mx4_.*'], bound=2, workers=16),
                 vrt('C07', [r'mx2_.*_r1'], bound=2, workers=4, spurious=True)]
